@@ -37,7 +37,7 @@ EXPLANATION = (
     "`is None`."
 )
 ASSUMPTIONS = ["external library calls (numpy, itertools) do not mutate their arguments unless they are in-place methods recognised by name"]
-FLOORS = {"C12.R1": 2, "C12.R2": 1, "C12.R3": 1, "C12.R4": 6, "C12.R5": 5}
+FLOORS = {"C12.R1": 2, "C12.R2": 1, "C12.R3": 1, "C12.R4": 6, "C12.R5": 5, "C12.R6": 2}
 
 FALSY_LEGIT = {"charge": "0 is a legitimate total charge"}
 FALSY_EXEMPT = {"mult": "0 is not a multiplicity", "dist": "0 is not a bond length", "name": "an empty name is not a name"}
@@ -69,6 +69,62 @@ def run(chk):
     chk.call(r3_overrides, chk, j)
     chk.call(r4_constitution, chk, j)
     chk.call(r5_geometry_order, chk, j)
+    chk.call(r6_iterated_join, chk)
+
+
+def r6_iterated_join(chk):
+    """scripts/combine.py joins the substituents onto one core one after the other.  Every join removes the attachment atom,
+    so the atoms behind it move up by one: with the attachment indices taken in ascending order, the k-th join must address
+    `ap - k` - or both sequences are walked from the back, where nothing that is still to be used moves."""
+    from ..canon import Env
+
+    prog = chk.prog
+    f = prog.func("molli.scripts.combine:_ml_assemble")
+    chk.analysed(f)
+    env = Env(f.node)
+    aps, combos = f.params()[1], f.params()[2]
+    joins = [c for c in walk_no_nested(f.node) if isinstance(c, ast.Call) and norm(c.func).endswith(".join") and "Molecule" in norm(c.func) and len(c.args) >= 4]
+    chk.require(len(joins) == 1, "_ml_assemble: the iterated Molecule.join call not found")
+    jc = joins[0]
+    loops = [l for l in walk_no_nested(f.node) if isinstance(l, ast.For) and any(x is jc for x in ast.walk(l))]
+    chk.require(len(loops) >= 2, "_ml_assemble: the per-combination loop and the join loop not found")
+    outer, l = loops[0], loops[-1]
+    combo = norm(outer.target)
+    it = env.expand(l.iter)
+    tg = l.target
+    key = f"{f.key}:attachment-index-shift"
+    idx = jc.args[2]
+    sub_arg = norm(jc.args[1])
+    ok, how = False, ""
+    # (a) for i, (ap, sub) in enumerate(zip(aps, combo)): join(.., sub, ap - i, ..)
+    if isinstance(it, ast.Call) and call_name(it) == "enumerate" and it.args and isinstance(it.args[0], ast.Call) and call_name(it.args[0]) == "zip" \
+            and isinstance(tg, ast.Tuple) and len(tg.elts) == 2 and isinstance(tg.elts[1], ast.Tuple) and len(tg.elts[1].elts) == 2:
+        z = [norm(a) for a in it.args[0].args]
+        i_, ap_, s_ = norm(tg.elts[0]), norm(tg.elts[1].elts[0]), norm(tg.elts[1].elts[1])
+        ok = z == [aps, combo] and norm(idx) == f"{ap_} - {i_}" and sub_arg == s_ and len(it.args) == 1
+        how = f"enumerate(zip({', '.join(z)})) with index {norm(idx)}"
+    # (b) / (c) for ap, sub in zip(X, Y)
+    elif isinstance(it, ast.Call) and call_name(it) == "zip" and len(it.args) == 2 and isinstance(tg, ast.Tuple) and len(tg.elts) == 2:
+        x, y = it.args
+        ap_, s_ = norm(tg.elts[0]), norm(tg.elts[1])
+        xt, yt = norm(x), norm(y)
+        shifted = isinstance(x, ast.ListComp) and len(x.generators) == 1 and norm(x.generators[0].iter) == f"enumerate({aps})" and isinstance(x.generators[0].target, ast.Tuple) \
+            and norm(x.elt) == f"{norm(x.generators[0].target.elts[1])} - {norm(x.generators[0].target.elts[0])}" and not x.generators[0].ifs
+        both_reversed = xt in (f"reversed({aps})", f"{aps}[::-1]") and yt in (f"reversed({combo})", f"{combo}[::-1]")
+        ok = norm(idx) == ap_ and sub_arg == s_ and ((shifted and yt == combo) or both_reversed)
+        how = f"zip({xt}, {yt}) with index {norm(idx)}"
+    else:
+        raise AnalysisError(f"_ml_assemble: join loop `for {norm(tg)} in {norm(it)}` - unknown idiom")
+    chk.decide(ok, "C12.R6", key, f.where(jc), how,
+               f"the joins run over {how}: the k-th substituent is not attached at the k-th attachment point of the core as shifted by the k joins already made "
+               "(each join deletes one attachment atom in front of the later ones) - the product is a different regio-isomer, or an attachment atom is addressed that is no longer one")
+    # the substituent of a join is attached by its own first attachment point, onto the growing product
+    ok2 = norm(jc.args[3]) == f"{sub_arg}.attachment_points[0]" and isinstance(jc.args[0], ast.Name)
+    asg = assignments(f.node)
+    grow = [v for v in asg.get(norm(jc.args[0]), []) if isinstance(v, ast.AST)]
+    ok2 = ok2 and any(v is jc for v in grow)
+    chk.decide(ok2, "C12.R6", f"{f.key}:joins-accumulate", f.where(jc), f"{norm(jc.args[0])} = join({norm(jc.args[0])}, sub, ...)",
+               "the result of a join is not the first operand of the next one: substituents do not accumulate on one product")
 
 
 def r1_inputs_untouched(chk, j, eff):
